@@ -40,6 +40,7 @@ var spellFlags struct {
 	depth int
 }
 var spellCounter int
+var spellDirs []string
 
 func spellSeg(s string) string {
 	switch s {
@@ -119,16 +120,20 @@ func init() {
 			fs.IntVar(&spellFlags.depth, "depth", 1, "directory depth of the root below the working directory")
 		},
 		init: func() error {
-			base, err := os.MkdirTemp("", "verif-cwd-")
-			if err != nil {
-				return err
+			// two private working directories: the process moves between them from case to case
+			for i := 0; i < 2; i++ {
+				base, err := os.MkdirTemp("", "verif-cwd-")
+				if err != nil {
+					return err
+				}
+				base, _ = filepath.EvalSymlinks(base)
+				if err := os.MkdirAll(filepath.Join(base, "w", "r"), 0o755); err != nil {
+					return err
+				}
+				spellDirs = append(spellDirs, base)
 			}
-			base, _ = filepath.EvalSymlinks(base)
-			if err := os.MkdirAll(filepath.Join(base, "w", "r"), 0o755); err != nil {
-				return err
-			}
-			cwdPrefix = base
-			return os.Chdir(filepath.Join(base, "w", "r"))
+			cwdPrefix = spellDirs[0]
+			return os.Chdir(filepath.Join(cwdPrefix, "w", "r"))
 		},
 		run: func(line []byte, emit func(interface{})) error {
 			var sp spelling
@@ -136,6 +141,10 @@ func init() {
 				return err
 			}
 			spellCounter++
+			cwdPrefix = spellDirs[spellCounter%2]
+			if err := os.Chdir(filepath.Join(cwdPrefix, "w", "r")); err != nil {
+				return err
+			}
 			for _, api := range []string{"ExpandSpec", "ExpandSchemaWithBasePath"} {
 				emit(runSpell(spellCounter, api, sp))
 			}
